@@ -148,6 +148,15 @@ func c12Model(h c12History, chosen func(k int) (string, bool)) (exp c12Expect, p
 	return
 }
 
+func c12PatchHoldsMarker(f *c12MFile) bool {
+	for _, p := range f.Patches {
+		if strings.Contains(p.Content, "@@thriftgo_insertion_point(") {
+			return true
+		}
+	}
+	return false
+}
+
 func c12Expected(f *c12MFile) string {
 	// every occurrence of a marker replaced by the concatenation of its patches
 	content := f.Content
@@ -268,6 +277,23 @@ func c12Check(h c12History) (keys []string, detail string) {
 		add(k, fmt.Sprintf("response has %d files, specification %d", len(out.Files), len(exp.Files)))
 		return
 	}
+	nested := c12HasNestedMarker(h)
+	if nested {
+		// the same history assembled again (fresh FileManager) must give the same bytes
+		for k := 0; k < 6; k++ {
+			again := c12RunImpl(h)
+			if len(again.Files) != len(out.Files) || again.Err != out.Err || again.Panic != out.Panic {
+				add("nondeterministic-assembly/patch-text-holds-a-marker", fmt.Sprintf("assembling the same history twice gives %d and %d files (errors %q / %q)", len(out.Files), len(again.Files), out.Err, again.Err))
+				return
+			}
+			for i := range again.Files {
+				if again.Files[i].GetName() != out.Files[i].GetName() || again.Files[i].Content != out.Files[i].Content {
+					add("nondeterministic-assembly/patch-text-holds-a-marker", fmt.Sprintf("assembling the same history twice gives different contents for file #%d %q:\n first: %q\n again: %q", i, out.Files[i].GetName(), out.Files[i].Content, again.Files[i].Content))
+					return
+				}
+			}
+		}
+	}
 	names := map[string]int{}
 	for i, f := range out.Files {
 		n := f.GetName()
@@ -278,6 +304,9 @@ func c12Check(h c12History) (keys []string, detail string) {
 		}
 		want := c12Normalise(c12Expected(e), e)
 		got := c12Normalise(f.Content, e)
+		if nested && c12PatchHoldsMarker(e) {
+			continue // not pinned down: see c12Nest
+		}
 		if got != want {
 			k := "content"
 			switch {
@@ -335,7 +364,7 @@ func c12GenHistory(rng *vlib.Rng, uid *int) c12History {
 					continue
 				}
 				*uid++
-				fd.Items = append(fd.Items, c12Item{Point: c12Point(rng), Content: fmt.Sprintf("<P%d>", *uid)})
+				fd.Items = append(fd.Items, c12Item{Point: c12Point(rng), Content: c12Nest(rng, fmt.Sprintf("<P%d>", *uid))})
 			default: // named patch for a name fed earlier
 				var known []string
 				for k := range contents {
@@ -371,7 +400,7 @@ func c12GenHistory(rng *vlib.Rng, uid *int) c12History {
 						continue
 					}
 				}
-				fd.Items = append(fd.Items, c12Item{Named: true, Name: known[rng.Intn(len(known))], Point: p, Content: fmt.Sprintf("<N%d>", *uid)})
+				fd.Items = append(fd.Items, c12Item{Named: true, Name: known[rng.Intn(len(known))], Point: p, Content: c12Nest(rng, fmt.Sprintf("<N%d>", *uid))})
 			}
 		}
 		h = append(h, fd)
@@ -387,6 +416,27 @@ func c12Point(rng *vlib.Rng) string {
 		return "absent.point"
 	}
 	return c12RegularPoints[rng.Intn(len(c12RegularPoints)-1)]
+}
+
+// c12Nest sometimes puts the marker of another point into the text of a patch.  What becomes of such a
+// marker is not pinned down by the property (the implementation inserts patch text without scanning it
+// again); what is asserted for these histories is that the assembly is a function of its input.
+func c12Nest(rng *vlib.Rng, content string) string {
+	if !rng.Chance(1, 6) {
+		return content
+	}
+	return content + "[" + c12mk(c12RegularPoints[rng.Intn(len(c12RegularPoints))]) + "]"
+}
+
+func c12HasNestedMarker(h c12History) bool {
+	for _, fd := range h {
+		for _, it := range fd.Items {
+			if it.Point != "" && strings.Contains(it.Content, "@@thriftgo_insertion_point(") {
+				return true
+			}
+		}
+	}
+	return false
 }
 
 func c12GenContent(rng *vlib.Rng, uid *int) string {
@@ -499,6 +549,8 @@ func C12(r *vlib.Run) {
 		{{Src: "s", Items: []c12Item{{Point: "imports", Content: "<P1>"}}}},
 		{{Src: "s", Items: []c12Item{n("a.go", "same")}}, {Src: "t", Items: []c12Item{n("a.go", "same"), {Point: "imports", Content: "<P1>"}, n("b", "k"+c12mk("imports"))}}},
 		{{Src: "s", Items: []c12Item{n("a.go", "1"), n("a.go", "2"), n("a.go", "3"), n("a.go", "2"), n("a.go", "4")}}},
+		// patch text that itself holds markers of other points of the file (a cycle of three)
+		{{Src: "s", Items: []c12Item{n("a.go", "x "+c12mk("imports")+" y "+c12mk("extra-methods")+" z "+c12mk("a.b")), {Point: "imports", Content: "<P1 " + c12mk("extra-methods") + ">"}, {Point: "extra-methods", Content: "<P2 " + c12mk("a.b") + ">"}, {Point: "a.b", Content: "<P3 " + c12mk("imports") + ">"}}}},
 	}
 	total := r.N(60000, 1500000)
 	rng := vlib.NewRng(r.Seed, "c12")
@@ -506,6 +558,10 @@ func C12(r *vlib.Run) {
 		keys, detail := c12Check(h)
 		r.Eval(1)
 		r.Sig(c12Signature(h))
+		if len(keys) == 0 && c12HasNestedMarker(h) {
+			r.Eval(6)
+			r.Sig("patch-text-holds-a-marker:assembled-7-times-identically")
+		}
 		seenKey := map[string]bool{}
 		for _, k := range keys {
 			if seenKey[k] {
@@ -533,4 +589,5 @@ func C12(r *vlib.Run) {
 	for i := 0; i < total; i++ {
 		run(c12GenHistory(rng, &uid), i%(total/5+1) == 0)
 	}
+	r.Require("patch-text-holds-a-marker:assembled-7-times-identically")
 }
